@@ -94,13 +94,14 @@ sessions with a cacheable DCID take). -/
 def hasFamilySession (ss : List Sess) (k : Bytes) : Bool :=
   (findSess ss k).isSome || ss.any (fun s => s.key != [])
 
-/-- `TakeFlowFamilyBufferedPackets`: the members of the family are the sessions with a cacheable
-DCID (`retainFlowFamilyRef` registers no others). -/
+/-- `TakeFlowFamilyBufferedPackets` (as repaired by 629a74d): the session stored under the family key
+itself (an Initial without a cacheable DCID) and every member of the family — i.e. every session of
+this source and destination. -/
 def takeHeld : List Sess → List Bytes × List Sess
   | [] => ([], [])
   | s :: ss =>
     let r := takeHeld ss
-    if s.key ≠ [] ∧ 1 < s.pkt.data.length then (s.withheld ++ r.1, s.release :: r.2)
+    if 1 < s.pkt.data.length then (s.withheld ++ r.1, s.release :: r.2)
     else (r.1, s :: r.2)
 
 /-- `ObserveFlowFamilyQuicInitial`: the sessions afterwards (the exact-key member without a
